@@ -100,6 +100,50 @@ func (match4Engine) Run(ctx *fw.Ctx, cs any) {
 			datas = append(datas, p.Bytes())
 		}
 	}
+	// (1b) systematic shapes: every hardware-address length, echoed options of every boundary length,
+	// options split over several instances (RFC 3396), long parameter lists
+	for _, mt := range []byte{1, 3} {
+		for hl := 0; hl <= 17; hl++ {
+			xid++
+			mac := make([]byte, 16)
+			rng.Read(mac)
+			p := pkt.Request4(xid, mac, mt)
+			p.HLen = byte(hl)
+			if hl == 17 {
+				p.HLen = byte(18 + rng.Intn(238))
+			}
+			p.Gi = pkt.IP4("10.9.9.9")
+			datas = append(datas, p.Bytes())
+		}
+		for _, l := range []int{1, 2, 3, 7, 8, 19, 64, 128, 254, 255} {
+			for _, code := range []byte{61, 82} {
+				xid++
+				v := make([]byte, l)
+				rng.Read(v)
+				p := pkt.Request4(xid, []byte{2, 0, 0, 0, 1, byte(l)}, mt, pkt.O4(code, v...))
+				p.Flags = 0x8000
+				datas = append(datas, p.Bytes())
+				// the same value split over two instances of the option
+				if l >= 2 {
+					xid++
+					p2 := pkt.Request4(xid, []byte{2, 0, 0, 0, 2, byte(l)}, mt, pkt.O4(code, v[:l/2]...), pkt.O4(55, 1, 3), pkt.O4(code, v[l/2:]...))
+					p2.Gi = pkt.IP4("10.9.9.9")
+					datas = append(datas, p2.Bytes())
+				}
+			}
+		}
+		// both echoed options at their maximum, plus a 255-entry parameter list: a large reply
+		xid++
+		big := make([]byte, 255)
+		rng.Read(big)
+		prl := make([]byte, 255)
+		for i := range prl {
+			prl[i] = byte(i + 1)
+		}
+		p := pkt.Request4(xid, []byte{2, 0, 0, 0, 3, 3}, mt, pkt.O4(61, big...), pkt.O4(82, big...), pkt.O4(55, prl...), pkt.O4(12, big...))
+		p.Gi = pkt.IP4("10.9.9.9")
+		datas = append(datas, p.Bytes())
+	}
 	// (2) generated and mutated datagrams
 	for i := 0; i < c.NRand; i++ {
 		xid++
